@@ -26,6 +26,8 @@ def run(prop, tier, repo):
         ctx.note("program", prog.stats())
         mod = importlib.import_module(f"checks.{prop}")
         explanation, trusted = mod.run(ctx)
+        from vk import generic
+        generic.sweep(ctx)
         return finish(ctx, explanation, trusted)
     except AnalysisError as e:
         print(f"ANALYSIS-ERROR property={prop} {e}")
